@@ -108,13 +108,13 @@ type Enc struct {
 	deferred []*ssa.Defer
 	usesGo   bool
 
-	lastPreAlloc string
-	usedGhost    map[string]bool
-	axioms       []string
-	axiomNames   []string
-	preludeText  string
-	constErrs    []string
-	tables       []constTable
+	lastPreAlloc   string
+	usedGhost      map[string]bool
+	axioms         []string
+	axiomNames     []string
+	preludeText    string
+	constErrs      []string
+	tables         []constTable
 	assumedGlobals []string
 	nquant         int
 	localAllocs    []*localAlloc
@@ -127,9 +127,10 @@ type Enc struct {
 	inl      *inlineFrame
 	ninlined int
 	// assert clauses: instruction cut-off for name resolution, which ones fired
-	resolveCut int
-	assertDone map[string]bool
-	assertSeen []int
+	resolveCut    int
+	assertDone    map[string]bool
+	assertSeen    []int
+	ensuresAtSeen map[int]bool
 }
 
 // sliceRoot: v is root[shift:...] (a chain of reslices); cells of v are addressed through root
@@ -806,6 +807,7 @@ func (e *Enc) run() (err error) {
 	e.deferred = nil
 	e.assertDone = nil
 	e.assertSeen = nil
+	e.ensuresAtSeen = nil
 	e.resolveCut = 0
 
 	e.entry = &State{m: map[string]string{}, b: map[string]string{}, enc: e}
@@ -885,6 +887,11 @@ func (e *Enc) run() (err error) {
 		e.encodeBlock(b)
 	}
 	if e.fc != nil {
+		for i, cl := range e.fc.Ensures {
+			if cl.At != "" && !e.ensuresAtSeen[i] {
+				panic(fmt.Errorf("contract error (%s ensures#%d): no return of the function is on a line containing %q", e.key, i+1, cl.At))
+			}
+		}
 		for i, cl := range e.fc.Asserts {
 			seen := false
 			for _, j := range e.assertSeen {
@@ -2271,6 +2278,21 @@ func (e *Enc) encodeReturn(in *ssa.Return, st *State) {
 		if cl.At != "" && !strings.Contains(e.ctx.sourceLine(e.fn, in.Pos()), cl.At) {
 			continue
 		}
+		if cl.Before != "" {
+			anchor := e.ctx.firstLineContaining(e.fn, cl.Before)
+			if anchor == 0 {
+				panic(fmt.Errorf("contract error (%s ensures#%d): no line of the function contains %q", e.key, i+1, cl.Before))
+			}
+			if !in.Pos().IsValid() || e.fn.Prog.Fset.Position(in.Pos()).Line >= anchor {
+				continue
+			}
+		}
+		if cl.At != "" {
+			if e.ensuresAtSeen == nil {
+				e.ensuresAtSeen = map[int]bool{}
+			}
+			e.ensuresAtSeen[i] = true
+		}
 		label := cl.Label
 		if label == "" {
 			label = fmt.Sprint(i + 1)
@@ -2362,7 +2384,6 @@ func (e *Enc) resultVars(in *ssa.Return) map[string]TV {
 func isErrorType(t types.Type) bool {
 	return types.Identical(t, types.Universe.Lookup("error").Type())
 }
-
 
 // findLocalAllocs lists the allocations of this function whose reference never
 // escapes (it is only dereferenced, indexed, ranged over, measured or returned).
@@ -2461,7 +2482,6 @@ func escapes(v ssa.Value, seen map[ssa.Value]bool) bool {
 	return false
 }
 
-
 // splitEnsures splits `A && B` into [A, B] and `P ==> (A && B)` into [P ==> A, P ==> B].
 func splitEnsures(e Expr) []Expr {
 	if b, ok := e.(*EBinary); ok {
@@ -2478,7 +2498,6 @@ func splitEnsures(e Expr) []Expr {
 	}
 	return []Expr{e}
 }
-
 
 // ---- encoding a closure's body in place of a direct (or deferred) call to it
 
@@ -2583,7 +2602,6 @@ func (e *Enc) inlineClosure(fn *ssa.Function, args []ssa.Value, bindings []ssa.V
 	}
 	return results, true
 }
-
 
 // isUpCounter: phi at the head of loop li whose value is the constant 0 on every entry edge and
 // phi+1 on every back edge.
